@@ -81,6 +81,8 @@ def register_build_op(reg: Registry) -> None:
             # C08: macro entry under the new number; it takes the return address on top of the macro context stack
             f"result.offset in smb._mappings_macros and fresh({E})",
             f"{E}.return_addr is old(smb._macro_context__stack[len(smb._macro_context__stack) - 1][0])",
+            # the other macro entries are kept
+            "all_val(lambda k: implies(old(k in smb._mappings_macros) and k != result.offset, k in smb._mappings_macros and smb._mappings_macros[k] is old(smb._mappings_macros[k])))",
             # op written in this macro: this macro's file, name and the position recorded for the blueprint op
             f"implies(not {RELAY}, {E}.relpath_included_file is self.included__relative_path and {E}.macro_name == self.name and {E}.line == old(self.source_map._mappings[blueprint_op.offset].line) and {E}.column == old(self.source_map._mappings[blueprint_op.offset].column))",
             # op relayed from a nested macro: that macro's name and position; a None file means 'the file of this macro'
@@ -153,6 +155,8 @@ def register_build(reg: Registry) -> None:
                 "unchanged_list(self.blueprints) and unchanged_list(self.variables)",
                 "all_int(lambda k: implies(old(op_idx_counter.count) < k and k <= op_idx_counter.count, k in smb._mappings_macros))",
                 "unchanged_dict(self.source_map._mappings_macros) and unchanged_dict(self.source_map._mappings)",
+                "all_ref(lambda r: implies(r is not op_idx_counter and r is not lbl_idx_counter and old_allocated(r), r.count == old(r.count)), 'Counter')",
+                "all_ref(lambda r: implies(r is not smb and old_allocated(r), r._next_macro_called_in is old(r._next_macro_called_in)), 'SourceMapBuilder')",
             ]),
             2: dict(invariants=[]),
             3: dict(invariants=[]),
